@@ -61,6 +61,15 @@ CLAIMED = {
             "reviewed by reading and tied to guard fragments that must still be present; Rust-stack exhaustion by data "
             "nesting and allocation failure are not decided; " + TRUST,
             "DESIGN.md §2.1, §3 C08"),
+    "C01": ("panic-site audit of the front end + loop-progress / no-left-recursion rules on MIR CFGs + must-pass-through "
+            "rule for error recording",
+            "Decides the absence of panic paths in scanner, parser and compiler (181 sites over 217 functions, incl. the "
+            "parse functions reached through PARSE_RULES), that every cursor loop consumes input on every cycle and the "
+            "parser has no advance-free recursion, and that an Invalid AST node is never produced without a recorded "
+            "error while execution is dominated by error-free parsing and compiling.",
+            "End-of-input exits of loops are read, not derived; Rust-stack exhaustion by nesting beyond the property's "
+            "bound is not decided; justified sites rest on who-writes invariants that are themselves rule instances; " + TRUST,
+            "DESIGN.md §3 C01"),
 }
 
 NOT_APPLICABLE = {
